@@ -433,6 +433,10 @@ def conc_stage(tier, seed, key):
         job = jobs[v["id"]]
         v["fam"] = job.get("fam")
         v["ctx"] = props.context_of(v, job)
+        # C13: "after such a wrap-around all other guarantees continue to hold" - any clause that fails in an execution
+        # in which a thread's generation counter was preset next to the wrap also counts for C13
+        if "genwrap" in (v["ctx"] or "").split(",") and "C13" not in v["prop"].split("+"):
+            v["prop"] = v["prop"] + "+C13"
         k = viol_key(v)
         per_key.setdefault(k, 0)
         per_key[k] += 1
